@@ -123,7 +123,7 @@ class Clause:
 
     def nshards(self, tier, ncpu):
         n = self.budget[tier]
-        per_min = 1 if n < 32 else 6
+        per_min = 4 if n < 48 else 6     # the first example of every shard is the strategy's simplest value: keep several examples per shard
         return max(1, min(self.max_shards, ncpu, n // per_min if per_min else 1))
 
 
